@@ -117,7 +117,17 @@ def run(ctx):
     refusals = sum(v for k, v in hist.items() if k.endswith("err notFound") or k.endswith("err alreadyExists") or k.endswith("err invalidInput"))
     refusals += h.get("out:err invalidInput", 0)
     total_ops += stat.get("ops", 0)
+    # two handles on one stream (harness/src/twoh.rs): growth judged by the directory entry's length before and
+    # after, refusals judged by the backing bytes and by the same call made again — decided on the implementation
+    rc_t, out_t = C.harness(["twohandles", "--seed", ctx.seed, "--count", 1500 if ctx.tier == "quick" else 30000], timeout=3600)
+    st_t, _, or_t = C.parse_stats(out_t)
+    for msg in [m for m in or_t if m.startswith("C10 ")][:3]:
+        C.add_violation(ctx, "two-handles:" + ("grow" if "grow" in msg else "below-old-length" if "below" in msg else "refusal"), msg[:500],
+                        "# C10: %s\n# replay: harness twohandles --seed %s --count %s (the history is in the message)\n" % (msg[:3000], ctx.seed, 1500 if ctx.tier == "quick" else 30000))
+    if rc_t != 0:
+        ctx.undischarged.append("harness twohandles crashed: " + out_t[-300:])
     ctx.coverage.update({
+        "two_handles_on_one_stream": {"calls": st_t.get("calls", 0), "grows_judged": st_t.get("grows_judged", 0), "refusals_judged": st_t.get("refusals_judged", 0)},
         "evaluations": total_ops,
         "distinct_nontrivial": distinct,
         "refused_calls_checked": refusals,
